@@ -449,6 +449,14 @@ impl WorldC {
                     }
                     if committed {
                         self.meter.flag("vote_ok");
+                        let opt = match v["vote"]["vote"].as_str().unwrap_or("") {
+                            "yes" => "Yes",
+                            "no" => "No",
+                            "abstain" => "Abstain",
+                            "veto" => "Veto",
+                            _ => "",
+                        };
+                        self.expect_ballots.push((mi, id, f.sender.clone(), opt.to_string()));
                     }
                     self.meter.token(
                         "vote",
@@ -606,7 +614,8 @@ impl WorldC {
                 if !known {
                     self.new_proposal(mi, p, ctx, &block, out);
                 }
-                let deep = n <= 10 || pi + 10 >= n || matches!(p.status, Status::Open | Status::Passed);
+                let just_voted = self.expect_ballots.iter().any(|e| e.0 == mi && e.1 == p.id);
+                let deep = just_voted || n <= 10 || pi + 10 >= n || matches!(p.status, Status::Open | Status::Passed);
                 let votes = if deep {
                     match list_votes(self, &label, p.id) {
                         Ok(v) => Some(v),
@@ -628,6 +637,22 @@ impl WorldC {
                 self.viol(out, "C05", "proposal-disappeared", json!({}), format!("{:?}", missing));
             }
             full[label] = json!(snapshot_json);
+        }
+        // C06: a committed Vote left exactly the ballot that was cast
+        let exp = std::mem::take(&mut self.expect_ballots);
+        for (mi, id, voter, opt) in exp {
+            if let Some(t) = self.msigs.get(mi).and_then(|m| m.props.get(&id)) {
+                let got = t.ballots.get(&voter).map(|b| b.0.clone());
+                if got.as_deref() != Some(opt.as_str()) {
+                    self.viol(
+                        out,
+                        "C06",
+                        "ballot-not-recorded-as-cast",
+                        json!({}),
+                        format!("a committed Vote {} by {} on proposal {} left ballot {:?}", opt, self.role(&voter), id, got),
+                    );
+                }
+            }
         }
         full["deposits"] = json!(self.deposit_balances().into_iter().map(|(k, v)| (k, v.to_string())).collect::<BTreeMap<String, String>>());
         if tx_failed {
